@@ -122,8 +122,8 @@ def leadingDots : Str → Nat
   | [] => 0
   | c :: cs => if c = DOT then leadingDots cs + 1 else 0
 
-/-- the `while True` loop, on the REVERSED path of `root`.  Python does not terminate when
-    `/__init__.py` exists (dirname '/' = '/'); the model stops at '/'. -/
+/-- `Project._package_parts(root)`, on the REVERSED path of `root`: collect `basename(root)` while
+    `root/__init__.py` exists and `dirname(root) != root` (the loop stops at the filesystem root) -/
 def climb (fs : Fs) : List Str → List Str
   | [] => []
   | b :: up => if fs.exists ((b :: up).reverse ++ [INIT_PY]) then climb fs up ++ [b] else []
